@@ -117,6 +117,13 @@ make_iv(uint8_t *iv, unsigned len, int kind, uint64_t seed)
         }
 }
 
+void
+mat_raw_keys(uint64_t key_seed, uint8_t rawc[64], uint8_t rawa[160])
+{
+        fill_bytes(rawc, 64, mix64(key_seed, 0xC1));
+        fill_bytes(rawa, 160, mix64(key_seed, 0xA1));
+}
+
 bool
 materialize(MatJob &mj, const JobSpec &s, IMB_MGR *hm, const LibImage *img)
 {
@@ -126,8 +133,7 @@ materialize(MatJob &mj, const JobSpec &s, IMB_MGR *hm, const LibImage *img)
         memset(&j, 0, sizeof j);
         const uint64_t ks = s.key_seed;
         uint8_t rawc[64], rawa[160];
-        fill_bytes(rawc, sizeof rawc, mix64(ks, 0xC1));
-        fill_bytes(rawa, sizeof rawa, mix64(ks, 0xA1));
+        mat_raw_keys(ks, rawc, rawa);
 
         j.cipher_mode = (IMB_CIPHER_MODE) s.cipher;
         j.cipher_direction = (IMB_CIPHER_DIRECTION) s.dir;
